@@ -25,7 +25,10 @@ REQUIRE = {
     "monitors": {"invariant: VarsManager structure (icontract)": 500, "model: fixed parameters change only when assigned": 200,
                  "model: tied parameters read equal": 200, "model: read-all/write-all is the identity": 30,
                  "model: coordinate switch preserves the complex value": 50, "model: std_polar gives r>=0, -pi<=phi<pi": 30,
-                 "bound: x2y(y2x(y))==y on the range": 50, "bound: slope == analytic derivative": 50},
+                 "bound: x2y(y2x(y))==y on the range": 50, "bound: slope == analytic derivative": 50,
+                 "config: tied parameters count once and read equal": 8, "config: fixed parameters change only when assigned": 8,
+                 "config: set_all -> get_all_val round trip": 5},
+    "cover": {"config_scenario": [0, 1, 2, 3]},
     "min_nontrivial": {"quick": 60, "thorough": 1000},
 }
 LEVEL_TEXT = ("icontract class invariant on the real VarsManager evaluated after every public method plus an offline checker that replays the "
@@ -360,6 +363,94 @@ def run(ctx):
             ctx.check("model: read-all/write-all is the identity", all(p0[x] == p1[x] for x in p0), {"card": cards.short(card)}, mechanism="AbsPDF.get_params -> set_params")
             tv = list(amp.vm.trainable_vars)
             ctx.check("invariant: VarsManager structure (icontract)", len(tv) == len(set(tv)), {"card": cards.short(card)}, mechanism="trainable duplicates in loaded model")
+
+    # ------------------------------------------------------------ the same semantics when a configuration applies the operations
+    # (constrains: fix_var / free_var / var_range / var_equal on overlapping names, in the order ConfigLoader applies them)
+    n_c = ctx.pick(10, 200)
+    for i, rng in ctx.cases("config_constraints", n_c, budget_s=ctx.pick(200, 1200)):
+        from ..gen import cards
+
+        tag = "_c16Cs%di%d" % (ctx.seed, i)
+        try:
+            card = cards.CardGen(rng, tag, nbody=3, n_chains=(2, 3), res_per_slot=(1, 2), models=("default", "BW"), decay_opts_prob=0.0).make()
+            with contextlib.redirect_stdout(io.StringIO()):
+                probe = cards.load(card)
+                free0 = list(probe.get_amplitude().vm.trainable_vars)
+                all0 = sorted(probe.get_amplitude().get_params())
+            del probe
+        except Exception as e:
+            ctx.count("config_card_failed")
+            ctx.note("config card failed %r" % (e,))
+            continue
+        res = [r["name"] for r in card["meta"]["resonances"]]
+        masses = [r + "_mass" for r in res if r + "_mass" in all0]
+        rr = [k_ for k_ in free0 if k_.endswith("r")]
+        constr = card["config"].setdefault("constrains", {})
+        scen = i % 4
+        expect_fixed, expect_tied = [], []
+        if scen == 0 and len(masses) >= 2:
+            # two resonances share one floating mass: both freed and tied
+            constr["free_var"] = [masses[0], masses[1]]
+            constr["var_equal"] = [[masses[0], masses[1]]]
+            expect_tied = [[masses[0], masses[1]]]
+        elif scen == 1 and len(rr) >= 2:
+            # the NON-head member of a tie is fixed: the whole group is fixed
+            constr["fix_var"] = {rr[1]: 0.33}
+            constr["var_equal"] = [[rr[0], rr[1]]]
+            expect_tied = [[rr[0], rr[1]]]
+            expect_fixed = [rr[0], rr[1]]
+        elif scen == 2 and len(rr) >= 3:
+            # the head of a three-member tie is fixed, one member also bounded
+            constr["fix_var"] = {rr[0]: 0.6}
+            constr["var_equal"] = [[rr[0], rr[1], rr[2]]]
+            expect_tied = [[rr[0], rr[1], rr[2]]]
+            expect_fixed = [rr[0], rr[1], rr[2]]
+        elif len(rr) >= 2 and masses:
+            # a freed mass with a range and an independent tie of two couplings
+            constr["free_var"] = [masses[0]]
+            constr["var_range"] = {masses[0]: [0.1, None]}
+            constr["var_equal"] = [[rr[-2], rr[-1]]]
+            expect_tied = [[rr[-2], rr[-1]]]
+        else:
+            ctx.count("config_card_too_small")
+            continue
+        desc = {"constrains": constr, "card": cards.short(card)}
+        try:
+            with contextlib.redirect_stdout(io.StringIO()):
+                cfg = cards.load(card)
+                amp = cfg.get_amplitude()
+            vm = amp.vm
+            structure_ok(vm)
+            tv = list(vm.trainable_vars)
+            before = {k_: float(v_) for k_, v_ in amp.get_params().items()}
+            # tie groups count once and read one value
+            for g_ in expect_tied:
+                ntr = sum(1 for x in g_ if x in tv)
+                vals = {before[x] for x in g_}
+                ctx.check("config: tied parameters count once and read equal", ntr <= 1 and len(vals) == 1, lambda: dict(desc, group=g_, times_free=ntr, values=sorted(vals)),
+                          mechanism="config constraints: tie group counted %d times / %d values (scenario %d)" % (ntr, len(vals), scen))
+            # write-all / read-all round trip on the free parameters, a fit-like sequence of set_all, refresh
+            x_new = [float(x) for x in rng.uniform(0.2, 1.5, len(tv))]
+            vm.set_all(x_new)
+            back = [float(x) for x in vm.get_all_val()]
+            ctx.check("config: set_all -> get_all_val round trip", bool(np.allclose(back, x_new, rtol=0, atol=1e-14)), lambda: dict(desc, wrote=x_new[:6], read=back[:6], free=tv[:6]),
+                      mechanism="config constraints: set_all/get_all_val (scenario %d)" % scen)
+            vm.refresh_vars() if hasattr(vm, "refresh_vars") else None
+            amp.set_params({k_: before[k_] for k_ in tv if k_ in before})
+            vm.set_all([float(x) for x in rng.uniform(0.2, 1.5, len(tv))])
+            after = {k_: float(v_) for k_, v_ in amp.get_params().items()}
+            moved = {k_: (before[k_], after[k_]) for k_ in expect_fixed if abs(before[k_] - after[k_]) > 0}
+            ctx.check("config: fixed parameters change only when assigned", not moved, lambda: dict(desc, moved=moved), mechanism="config constraints: fixed member of a tie moved (scenario %d)" % scen)
+            untied_fixed = [k_ for k_ in before if k_ not in tv and not any(k_ in g_ for g_ in vm.same_list)]
+            moved2 = {k_: (before[k_], after[k_]) for k_ in untied_fixed if abs(before[k_] - after[k_]) > 0}
+            ctx.check("config: fixed parameters change only when assigned", not moved2, lambda: dict(desc, moved=dict(list(moved2.items())[:4])), mechanism="config constraints: fixed parameter moved (scenario %d)" % scen)
+            for g_ in expect_tied:
+                ctx.check("config: tied parameters count once and read equal", len({after[x] for x in g_}) == 1, lambda: dict(desc, group=g_, values=[after[x] for x in g_]),
+                          mechanism="config constraints: tied values differ after updates (scenario %d)" % scen)
+            ctx.case(("cfgc", scen, cards.card_digest_key(card)), nontrivial=True)
+            ctx.covered("config_scenario", scen)
+        except Exception as e:
+            ctx.violation("config: tied parameters count once and read equal", ctx.exc_witness(e, **desc), mechanism="config constraints raise (scenario %d)" % scen)
 
     # ------------------------------------------------------------ Bound contracts
     n_b = ctx.pick(160, 3000)
